@@ -23,7 +23,7 @@ RULE = ('case = seeded netlist (<= 5 inputs, primitive gates, <= 2 primitive fli
         'of every library is reached; instance pins connected by a random mask) + 1-8 transformation steps; one case in 3000 starts from the shipped netlist b15_2ig.v.gz (~43000 nodes) instead; table domain = ports and state elements (<= 10 variables exhaustive, else 1024 pseudo-random rows derived from the variable names), '
         'observation = value at the data pin of every port/state element (unconnected = 0); non-trivial iff a resolve or substitute step was executed on a circuit containing an instance with an unconnected pin or '
         'a sequential/multi-output cell, or a restore happened between two other transformations; distinct = distinct case digests')
-REAL_VS_STUB = {'real': ['kyupy.circuit.Circuit: copy, __getstate__/__setstate__ (pickle), eliminate_1to1_forks, substitute, remove_dangling_nodes, resolve_tlib_cells, s_nodes', 'kyupy.techlib libraries and kyupy.bench.parse (providers of implementation circuits, trusted)'],
+REAL_VS_STUB = {'real': ['kyupy.circuit.Circuit: copy, __getstate__/__setstate__ (pickle), eliminate_1to1_forks, substitute, remove_dangling_nodes, resolve_tlib_cells, s_nodes', 'kyupy.techlib libraries and kyupy.bench.parse (providers of implementation circuits, trusted)', 'kyupy.logic_sim.LogicSim + kyupy.sim.SimOps on the transformed circuit (second observation of the function)', 'kyupy.verilog.load of tests/b15_2ig.v.gz (starting point of one history in 3000)'],
                 'stub': ['none; RefEval is the reference evaluator']}
 ASSUMPTIONS = ['the set of cell names every library must offer is the pinned tree\'s (dsim/data/libcells.json, 1026 names); additional cells are fine', 'an instance input pin is left unconnected only where "reads 0" and "not connected" give the cell the same function (otherwise the function before resolving is ambiguous)',
                'the function of a sequential library instance is defined through its implementation: state = the state element inside, result = value at that element\'s data pin',
